@@ -260,4 +260,131 @@ theorem tdGuard_of_planTeardown (s : St) (g : GId) (ts : List (Name × WId)) (hw
       exact ⟨hr, hg, (hb.1 r hr hs).1⟩
   · cases hp
 
+/-! ### plan/commit-adjacent histories -/
+
+/-- results of executing a deploy plan with the given outcomes -/
+def mkResults (ts : List Task) (outs : List Bool) : List DeployResult :=
+  List.zipWith (fun t o => { replica := t.replica, worker := t.worker, ok := o }) ts outs
+
+/-- operations whose commit phase runs on the state its plan was made on; `raw` is any other step -/
+inductive AOp where
+  | teardown (g : GId)
+  | deploy (g : GId) (specs : List PSpec) (outs : List Bool)
+  | heartbeat (id now : Nat)
+  | raw (st : Step)
+
+/-- the steps an operation performs from state `s` (`ch` = the placement strategy) -/
+def AOp.steps (ch : Chooser) (s : St) : AOp → List Step
+  | .teardown g => match planTeardown s g with
+    | some ts => [.commitTeardown g ts]
+    | none => []
+  | .deploy g specs outs => match planDeploy ch s specs with
+    | .ok ts => [.commitDeploy g specs (mkResults ts outs)]
+    | .noWorkers => []
+  | .heartbeat id now => match s.getW id with
+    | some w => [.heartbeat id w.assigned.length now]
+    | none => []
+  | .raw st => [st]
+
+/-- what remains to be assumed: a deploy uses a fresh group id and distinct replica names (input validity);
+any other step is inside its own guard. Adjacent teardowns and truthful heartbeats need nothing. -/
+def AOp.side (ch : Chooser) (s : St) : AOp → Bool
+  | .teardown _ => true
+  | .deploy g specs outs => match planDeploy ch s specs with
+    | .ok ts => (s.placements.all fun r => r.gid != g) && decide (((mkResults ts outs).map (·.replica)).Nodup)
+    | .noWorkers => true
+  | .heartbeat _ _ => true
+  | .raw st => (guardFail s st).isNone
+
+def runA (ch : Chooser) : St → List AOp → St
+  | s, [] => s
+  | s, op :: ops => runA ch (run s (op.steps ch s)) ops
+
+def sideAll (ch : Chooser) : St → List AOp → Bool
+  | _, [] => true
+  | s, op :: ops => op.side ch s && sideAll ch (run s (op.steps ch s)) ops
+
+theorem mem_mkResults {ts : List Task} {outs : List Bool} {r : DeployResult} (h : r ∈ mkResults ts outs) :
+    ∃ t ∈ ts, t.worker = r.worker := by
+  induction ts generalizing outs with
+  | nil => simp [mkResults] at h
+  | cons t ts ih =>
+    cases outs with
+    | nil => simp [mkResults] at h
+    | cons o os =>
+      simp only [mkResults, List.zipWith_cons_cons, List.mem_cons] at h
+      rcases h with rfl | h
+      · exact ⟨t, List.mem_cons_self, rfl⟩
+      · obtain ⟨t', ht', hw⟩ := ih h
+        exact ⟨t', List.mem_cons_of_mem _ ht', hw⟩
+
+theorem planDeploy_workers_registered (ch : Chooser) (hv : ch.Valid) (s : St) (specs : List PSpec)
+    (ts : List Task) (h : planDeploy ch s specs = .ok ts) : ∀ t ∈ ts, (s.getW t.worker).isSome = true := by
+  intro t ht
+  unfold planDeploy at h
+  split at h
+  · cases h
+  · cases hp : planPipes ch s 0 specs with
+    | none => simp [hp] at h
+    | some ts' =>
+      simp only [hp, PlanRes.ok.injEq] at h
+      subst h
+      obtain ⟨_, _, _, _, ⟨w, hw, hid, _⟩, _⟩ := planPipes_ok ch hv s specs 0 ts' hp t ht
+      unfold St.getW
+      cases hf : s.workers.find? (fun x => x.id == t.worker) with
+      | some _ => rfl
+      | none =>
+        have := List.find?_eq_none.1 hf w hw
+        simp [hid] at this
+
+/-- each adjacent operation is a guarded run -/
+theorem guardedRun_steps (ch : Chooser) (hv : ch.Valid) (s : St) (op : AOp) (hb : BookInv s) (hwf : WF s)
+    (hs : op.side ch s = true) : guardedRun s (op.steps ch s) = true := by
+  cases op with
+  | teardown g =>
+    simp only [AOp.steps]
+    cases hp : planTeardown s g with
+    | none => rfl
+    | some ts =>
+      simp only [guardedRun, guardFail, tdGuard_of_planTeardown s g ts hwf hb hp, if_true, Option.isNone_none, Bool.and_self]
+  | deploy g specs outs =>
+    simp only [AOp.steps, AOp.side] at hs ⊢
+    cases hp : planDeploy ch s specs with
+    | noWorkers => rfl
+    | ok ts =>
+      simp only [hp, Bool.and_eq_true, decide_eq_true_eq] at hs
+      have hreg : (mkResults ts outs).all (fun r => !r.ok || (s.getW r.worker).isSome) = true := by
+        rw [List.all_eq_true]
+        intro r hr
+        obtain ⟨t, ht, hw⟩ := mem_mkResults hr
+        have := planDeploy_workers_registered ch hv s specs ts hp t ht
+        rw [hw] at this
+        simp [this]
+      simp [guardedRun, guardFail, hs.1, hs.2, hreg]
+  | heartbeat id now =>
+    simp only [AOp.steps]
+    cases hw : s.getW id with
+    | none => rfl
+    | some w => simp [guardedRun, guardFail, hw]
+  | raw st =>
+    simp only [AOp.steps, AOp.side] at hs ⊢
+    simp [guardedRun, hs]
+
+/-- **plan/commit-adjacent histories keep the bookkeeping consistent**: teardowns planned and committed on
+the same state and truthful heartbeats need no premise at all; deploys only need a fresh group id and
+distinct replica names; every other step must be inside its own guard -/
+theorem adjacent_history_preserves (ch : Chooser) (hv : ch.Valid) : ∀ (ops : List AOp) (s : St),
+    BookInv s → WF s → sideAll ch s ops = true → BookInv (runA ch s ops) ∧ WF (runA ch s ops) := by
+  intro ops
+  induction ops with
+  | nil => intro s hb hwf _; exact ⟨hb, hwf⟩
+  | cons op ops ih =>
+    intro s hb hwf hs
+    simp only [sideAll, Bool.and_eq_true] at hs
+    simp only [runA]
+    apply ih
+    · exact guardedRun_preserves _ s hb (guardedRun_steps ch hv s op hb hwf hs.1)
+    · exact wf_run _ s hwf
+    · exact hs.2
+
 end Varpulis.Coord
